@@ -524,6 +524,7 @@ func (server *SugarDB) adjustMemoryUsage(ctx context.Context) error {
 				return fmt.Errorf("adjustMemoryUsage -> LFU cache empty")
 			}
 
+			verif.Point("evict.pre", database, server.lfuCache.cache[database])
 			key := heap.Pop(server.lfuCache.cache[database]).(string)
 			verif.Point("evict", database, key, "lfu", server.memUsed)
 			if !server.isInCluster() {
@@ -558,6 +559,7 @@ func (server *SugarDB) adjustMemoryUsage(ctx context.Context) error {
 				return fmt.Errorf("adjustMemoryUsage -> LRU cache empty")
 			}
 
+			verif.Point("evict.pre", database, server.lruCache.cache[database])
 			key := heap.Pop(server.lruCache.cache[database]).(string)
 			verif.Point("evict", database, key, "lru", server.memUsed)
 			if !server.isInCluster() {
